@@ -16,7 +16,7 @@ CALLS_PER_PBAT = 14
 
 def plan(prop, tier):
     q = tier == 'quick'
-    flavours = ['asan', 'plain'] if q else ['asan', 'plain', 'msan']
+    flavours = ['asan', 'plain'] if q else ['asan', 'plain', 'msan', 'efence']
     shards = []
     if prop == 'C01':
         shards.append(('shapes', 0, 16))          # corpus split 16 ways (index, of)
@@ -47,6 +47,10 @@ def plan(prop, tier):
         n = 16 if q else 64
         for i in range(n):
             shards.append(('mixed', SEED * 1000 + i, 2000 if q else 30000))
+    if not q and prop in ('C01', 'C10'):
+        flavours = flavours + ['fuzz']
+        for i in range(16):
+            shards.append(('fuzz', SEED * 100 + i, 1500000))
     return flavours, shards
 
 
@@ -213,6 +217,9 @@ def run_shard(shard_prop, bins, workdir, tier):
     lim = jsonref.nesting_limit(REPO)
     rng = random.Random((hash(prop) & 0xffff) * 7919 + a * 31 + 17)
     rng = random.Random('%s-%s-%s' % (prop, kind, a))
+    if kind == 'fuzz':
+        from . import fuzzrun
+        return fuzzrun.run_fuzz(prop, bins['fuzz'], workdir, a, bcount, rng)
     if kind == 'shapes':
         texts = corpus.shape_corpus()
         pref = corpus.all_prefixes(texts)
@@ -341,7 +348,7 @@ def run_shard(shard_prop, bins, workdir, tier):
             cid += 1
 
     for fl, binary in bins.items():
-        if fl == 'msan' and kind in ('nest',):
+        if fl == 'fuzz' or (fl == 'msan' and kind in ('nest',)):
             continue
         by_id = {c[0]: (c[1], c[2]) for c in cases + nest_cases}
         wit = case_witness(by_id, fl, thorough)
@@ -433,6 +440,9 @@ def finish(prop, tier, results):
         'classes': {k[6:]: v for k, v in sorted(tot.stats.items()) if k.startswith('class:')},
         'library_calls_under_monitor': tot.evals,
     }
+    for k in ('fuzz_execs', 'fuzz_sessions', 'fuzz_cov_edges_max', 'fuzz_new_corpus_units', 'fuzz_seed_inputs'):
+        if k in tot.stats:
+            cov[k] = tot.stats[k]
     for k in ('claims_reject_prefix_mode', 'claims_reject_terminated_mode', 'no_claim', 'stack_measurements', 'stack_plateau_bytes', 'stack_max_bytes'):
         if k in tot.stats:
             cov[k] = tot.stats[k]
